@@ -87,6 +87,11 @@ func (u urlDataProvider) GetUnderlying() any {
 	return u.Data
 }
 
+// FlatSource reports that forms and query strings have no nested records: nested structs read from the same values
+func (u urlDataProvider) FlatSource() bool {
+	return true
+}
+
 // Parses JSON, Form & Query data from request based on Content-Type header
 // Usage:
 // schema.Parse(zhttp.Request(r), &dest)
